@@ -201,7 +201,8 @@ def check(case, ctx):
         raise Violation("not-a-string", f"generate({p!r}) returned {s!r}")
     # a quantifier inside a quantifier can make even a successful match astronomically slow, and a match in
     # the C engine cannot be interrupted: those are matched in a child process that can be killed
-    risky = regexgen.rep_depth(pat["body"]) >= 2
+    # (... and so can several adjacent quantifiers with large counts: every pattern with two or more quantifiers goes there)
+    risky = regexgen.rep_depth(pat["body"]) >= 2 or regexgen.count_reps(pat["body"]) >= 2
     try:
         ok = safematch.fullmatch(p, s) if risky and len(s) > 12 else _fullmatch(p, s)
     except _Timeout:
